@@ -23,12 +23,15 @@ SpellSeq == SelectSeq(<<"time", "qtime", "Time", "TIME">>, InSpells)
 \* same with an RFC3339 string.  Reduce folds them to a time literal.
 \* "revrfc" / "revdt": the duration on the LEFT of the sum ( 1h + '<string>' ); ( 1h + <integer> is a duration + integer, which Reduce does not fold:
 \* not a time bound of the language, "revint" is kept for experiments only)
-FormSeq == SelectSeq(<<"int", "rfc", "dt", "date", "dur", "now", "intm", "intp", "rfcm", "rfcp", "revrfc", "revdt", "revint">>, InForms)
+FormSeq == SelectSeq(<<"int", "rfc", "rfcfar", "dt", "date", "dur", "now", "intm", "intp", "rfcm", "rfcp", "revrfc", "revdt", "revint">>, InForms)
 ArithForms == {"intm", "intp", "rfcm", "rfcp", "revrfc", "revdt", "revint"}
 
 \* which literal forms can denote the instant (k, d)
 FormOK(k, d, f) ==
-  CASE f = "int"  -> TRUE
+  CASE f = "int"  -> k \in 0..5
+    \* an RFC3339 string for an instant NO time literal can denote (year 1500, year 2300, one nanosecond beyond the range): not a
+    \* bound the splitter can evaluate, but a time bound all the same - SetTimeRange strips it like any other (C18)
+    [] f = "rfcfar" -> ~LitInRange(I(k, d))
     [] f = "dur"  -> TRUE
     [] f = "rfc"  -> LitInRange(I(k, d))
     [] f = "dt"   -> LitInRange(I(k, d))
